@@ -270,7 +270,7 @@ def parse_vspec(path: str):
                     else:
                         args.append(t)
                 cur = Rec(kind, args, opts, [], "%s:%d" % (os.path.basename(path), ln))
-                if kind in ("external", "external_impl"):
+                if kind in ("external", "external_impl") or (kind == "isolate" and False):
                     recs.append(cur)
                     cur = None
             else:
@@ -491,7 +491,7 @@ def statement_bounds(masked: str, f: Fn, needle_idx: int):
     return start, k
 
 
-def splice_module(mod: str, src: str, recs, report, havoc=()):
+def splice_module(mod: str, src: str, recs, report, havoc=(), variant="main"):
     masked, blocks, fns = scan_module(src)
     edits = []
     uses = []
@@ -506,9 +506,15 @@ def splice_module(mod: str, src: str, recs, report, havoc=()):
     def add_attr(f, text):
         fn_attrs.setdefault(f.item_start, []).append(text)
 
+    iso_fns = set()
+    for rec in recs:
+        if rec.kind == "isolate":
+            iso_fns.add(id(fn_of(rec)))
     for rec in recs:
         k = rec.kind
         body = "\n".join(rec.body)
+        if variant == "main" and k in ("loop", "before", "after", "closure") and id(fn_of(rec)) in iso_fns:
+            continue    # body hidden in this invocation: only the contract is spliced
         if k in ("fn", "assumed"):
             f = fn_of(rec)
             fq = "%s::%s" % (mod, rec.args[0])
@@ -617,6 +623,17 @@ def splice_module(mod: str, src: str, recs, report, havoc=()):
                 raise ExtractError("anchor-lost %s %r in %s: %d candidates" % (k, sub, mod, len(bs)))
             edits.append((bs[0].open_idx + 1, bs[0].open_idx + 1, "\n" + body + "\n"))
             anchors.append({"kind": k, "anchor": "%s::%s %s" % (mod, k, sub), "origin": rec.origin})
+        elif k == "isolate":
+            f = fn_of(rec)
+            fq = "%s::%s" % (mod, rec.args[0])
+            hide = [h for h in rec.opts.get("hide", "").split(",") if h]
+            report.setdefault("isolated", []).append({"fn": fq, "module": mod, "hide": ["%s::%s" % (mod, h) for h in hide]})
+            if variant == "main":
+                # in the main invocation the isolated function is seen through its contract only
+                add_attr(f, "#[verifier::external_body]")
+            elif variant == "iso:" + fq:
+                for h in hide:
+                    add_attr(resolve_fn(fns, h), "#[verifier::external_body]")
         elif k == "module":
             module_items.append(body)
         elif k == "uses":
@@ -645,7 +662,7 @@ def sha256(path):
     return hashlib.sha256(open(path, "rb").read()).hexdigest()
 
 
-def extract(out_path: str, report_path: str, contracts_dir=None, modules=None, havoc=()):
+def extract(out_path: str, report_path: str, contracts_dir=None, modules=None, havoc=(), light_magic=False, variant="main"):
     contracts_dir = contracts_dir or os.path.join(VERIF, "contracts")
     report = {"sources": {}, "anchors": [], "normalisations": [], "assumed": [], "external": [],
               "under_contract": [], "fn_props": {}, "contracts": {}}
@@ -679,9 +696,23 @@ def extract(out_path: str, report_path: str, contracts_dir=None, modules=None, h
         if os.path.exists(vs):
             report["contracts"][m + ".vspec"] = sha256(vs)
             recs = parse_vspec(vs)
-        text = splice_module(m, src, recs, report, havoc)
+        text = splice_module(m, src, recs, report, havoc, variant)
         parts.append("pub mod %s {\nuse vstd::prelude::*;\n#[allow(unused_imports)] use crate::stdspec::*;\n"
                      "#[allow(unused_imports)] use crate::model::*;\nverus! {\n%s\n} // verus!\n}\n" % (m, text))
+    # machine-generated lemma module: one bit-vector lemma per (square, slider) from the magic constants as they stand
+    if modules is None or "magic" in mods:
+        sys.path.insert(0, os.path.join(VERIF, "tools", "gen"))
+        import gen_magic_lemmas
+        try:
+            ml = gen_magic_lemmas.generate(open(os.path.join(srcdir, "magic.rs")).read(),
+                                           squares=os.environ.get("VERIF_MAGIC_SQUARES") and [int(x) for x in os.environ["VERIF_MAGIC_SQUARES"].split(",")],
+                                           light=light_magic)
+            report["magic_lemmas_light"] = light_magic
+        except ValueError as e:
+            raise ExtractError(str(e))
+        for mname, mtext in ml:
+            parts.append("pub mod %s {\nuse vstd::prelude::*;\n#[allow(unused_imports)] use crate::model::*;\nverus! {\n%s\n} // verus!\n}\n" % (mname, mtext))
+        report["generated_modules"] = [m for m, _ in ml]
     parts.append("fn main() {}\n")
     os.makedirs(os.path.dirname(out_path), exist_ok=True)
     with open(out_path, "w") as fh:
@@ -696,7 +727,7 @@ if __name__ == "__main__":
     out = sys.argv[1] if len(sys.argv) > 1 else os.path.join(VERIF, "build", "flounder_v.rs")
     rep = sys.argv[2] if len(sys.argv) > 2 else os.path.join(VERIF, "build", "extract_report.json")
     try:
-        r = extract(out, rep)
+        r = extract(out, rep, light_magic=bool(os.environ.get("VERIF_LIGHT")), variant=os.environ.get("VERIF_VARIANT", "main"))
     except ExtractError as e:
         print("EXTRACT-ERROR: %s" % e)
         sys.exit(2)
